@@ -140,4 +140,87 @@ theorem runOld_eq_run (j : J) (h : run j ≠ none) : run j = some (runOld j).1 :
         intro hn; apply h; simp only [run, hn]; cases run b <;> simp
       simp [run, runOld, ihb hb, ihr hr]
 
+/-! ### Splicing the bodies of `inline` calls (the ADEV pre-pass, the State rule) changes nothing the interpreter does -/
+
+theorem sites_append (a b : J) : (a.append b).sites = a.sites ++ b.sites := by
+  induction a with
+  | done => rfl
+  | prim r ih => simpa [J.append, J.sites] using ih
+  | site i r ih => simp [J.append, J.sites, ih]
+  | call k c r _ ihr => simp [J.append, J.sites, ihr, List.append_assoc]
+
+theorem runOld_append (a b : J) :
+    runOld (a.append b) = ((runOld a).1 ++ (runOld b).1, (runOld a).2 ++ (runOld b).2) := by
+  induction a with
+  | done => simp [J.append, runOld]
+  | prim r ih => simpa [J.append, runOld] using ih
+  | site i r ih => simp [J.append, runOld, ih]
+  | call k c r _ ihr =>
+    cases k <;> simp [J.append, runOld, ihr, List.append_assoc]
+
+theorem noInline_append (a b : J) (ha : a.noInline = true) (hb : b.noInline = true) :
+    (a.append b).noInline = true := by
+  induction a with
+  | done => simpa [J.append] using hb
+  | prim r ih => simpa [J.append, J.noInline] using ih (by simpa [J.noInline] using ha)
+  | site i r ih => simpa [J.append, J.noInline] using ih (by simpa [J.noInline] using ha)
+  | call k c r _ ihr =>
+    cases k with
+    | inline => simp [J.noInline] at ha
+    | interp =>
+      simp only [J.noInline, Bool.and_eq_true] at ha
+      simp [J.append, J.noInline, ha.1, ihr ha.2]
+    | rebind =>
+      simp only [J.noInline] at ha
+      simp [J.append, J.noInline, ihr ha]
+
+theorem inlineCalls_noInline (j : J) : j.inlineCalls.noInline = true := by
+  induction j with
+  | done => rfl
+  | prim r ih => simpa [J.inlineCalls, J.noInline] using ih
+  | site i r ih => simpa [J.inlineCalls, J.noInline] using ih
+  | call k b r ihb ihr =>
+    cases k with
+    | inline => exact noInline_append _ _ ihb ihr
+    | interp => simp [J.inlineCalls, J.noInline, ihb, ihr]
+    | rebind => simp [J.inlineCalls, J.noInline, ihr]
+
+theorem inlineCalls_sites (j : J) : j.inlineCalls.sites = j.sites := by
+  induction j with
+  | done => rfl
+  | prim r ih => simpa [J.inlineCalls, J.sites] using ih
+  | site i r ih => simp [J.inlineCalls, J.sites, ih]
+  | call k b r ihb ihr =>
+    cases k with
+    | inline => simp [J.inlineCalls, J.sites, sites_append, ihb, ihr]
+    | interp => simp [J.inlineCalls, J.sites, ihb, ihr]
+    | rebind => simp [J.inlineCalls, J.sites, ihr]
+
+/-- the interpreter handles and loses the same sites before and after the splice -/
+theorem inlineCalls_runOld (j : J) : runOld j.inlineCalls = runOld j := by
+  induction j with
+  | done => rfl
+  | prim r ih => simpa [J.inlineCalls, runOld] using ih
+  | site i r ih => simp [J.inlineCalls, runOld, ih]
+  | call k b r ihb ihr =>
+    cases k with
+    | inline => simp [J.inlineCalls, runOld, runOld_append, ihb, ihr]
+    | interp => simp [J.inlineCalls, runOld, ihb, ihr]
+    | rebind => simp [J.inlineCalls, runOld, ihr]
+
+theorem noInline_siteInline (j : J) (h : j.noInline = true) : j.siteInline = false := by
+  induction j with
+  | done => rfl
+  | prim r ih => simpa [J.siteInline] using ih (by simpa [J.noInline] using h)
+  | site i r ih => simpa [J.siteInline] using ih (by simpa [J.noInline] using h)
+  | call k b r ihb ihr =>
+    cases k with
+    | inline => simp [J.noInline] at h
+    | interp =>
+      simp only [J.noInline, Bool.and_eq_true] at h
+      simp [J.siteInline, ihb h.1, ihr h.2]
+    | rebind =>
+      simp only [J.noInline] at h
+      simp [J.siteInline, ihr h]
+
 end Genjax.Interp
